@@ -10,8 +10,8 @@
                             of the surface
      complete_cellwise      a cell with corners of both strict signs emits a triangle *)
 From Coq Require Import List ZArith NArith Bool Reals Lra Lia.
-From Sdfx Require Import Num.Ops Num.RInst Geo.Vec Geo.NormR Generated.MarchTables
-  Render.MC Render.MS Render.Lattice Render.Interp Render.LatticeR Render.Octree.
+From Sdfx Require Import Num.Ops Num.RInst Geo.Vec Geo.Box Geo.NormR Generated.MarchTables
+  Render.MC Render.MS Render.Lattice Render.Interp Render.LatticeR Render.Octree Render.Sample.
 Import ListNotations.
 Open Scope R_scope.
 
@@ -260,3 +260,137 @@ Proof.
   pose proof (nonempty _ L N0 N255) as NE. split; [exact NE|].
   intros Em. apply NE. apply (empty_mask_no_tris _ L Em).
 Qed.
+
+(* ================================================================== whole meshes *)
+(* w is the crossing point the code computes on the segment p1-p2, whose end values straddle 0 *)
+Definition crossing_of (f : RV3 -> R) (p1 p2 w : RV3) : Prop :=
+  straddles (f p1) (f p2) 0 /\ w = @mc_interpolate ROps p1 p2 (f p1) (f p2) 0.
+Definition tri_vertices (t : RV3 * RV3 * RV3) : list RV3 := let '(a, b, c) := t in [a; b; c].
+
+(* two lattice points one step apart along one axis *)
+Definition lattice_step (q q' : pt) : Prop :=
+  let '(x, y, z) := q in let '(x', y', z') := q' in
+  (Z.abs (x - x') + Z.abs (y - y') + Z.abs (z - z') = 1)%Z.
+Definition in_lattice (nx ny nz : nat) (q : pt) : Prop :=
+  let '(x, y, z) := q in (0 <= x <= Z.of_nat nx /\ 0 <= y <= Z.of_nat ny /\ 0 <= z <= Z.of_nat nz)%Z.
+
+Lemma adjacent_step p a b : adjacent a b -> lattice_step (addp p (corner_off a)) (addp p (corner_off b)).
+Proof.
+  unfold adjacent, lattice_step. destruct p as [[px py] pz], (corner_off a) as [[ax ay] az], (corner_off b) as [[bx by_] bz].
+  cbn [addp]. lia.
+Qed.
+Lemma corner_in_lattice nx ny nz p a : In p (cells nx ny nz) -> in_lattice nx ny nz (addp p (corner_off a)).
+Proof.
+  intros H. apply in_cells in H. destruct p as [[px py] pz]. destruct (corner_off_cases a) as (x & y & z & -> & Hx & Hy & Hz).
+  cbn [addp in_lattice]. lia.
+Qed.
+
+Section MeshUniform.
+  Variable L : lattice3 ROps.
+  Variable f : RV3 -> R.
+
+  (* mesh_on_lattice_edges: every vertex of every triangle the uniform renderer emits is the crossing
+     point computed on a lattice edge (two lattice points of the sampled lattice one step apart)
+     whose end values straddle 0 *)
+  Theorem uniform_vertices t w : In t (@marching_cubes ROps L f) -> In w (tri_vertices t) ->
+    exists q q', in_lattice (lnx L) (lny L) (lnz L) q /\ in_lattice (lnx L) (lny L) (lnz L) q' /\ lattice_step q q' /\
+                 crossing_of f (lpoint L q) (lpoint L q') w.
+  Proof.
+    rewrite marching_cubes_is_meshR. unfold meshR. intros Ht Hw. apply in_flat_map in Ht as (p & Hp & Ht).
+    pose proof (mc_vertices _ _ t Ht) as V. destruct t as [[w0 w1] w2]. destruct V as (V0 & V1 & V2).
+    assert (G : forall w', is_crossing_point (cell_p (lpoint L) p) (cell_v (lval L f) p) w' ->
+              exists q q', in_lattice (lnx L) (lny L) (lnz L) q /\ in_lattice (lnx L) (lny L) (lnz L) q' /\ lattice_step q q' /\
+                           crossing_of f (lpoint L q) (lpoint L q') w').
+    { intros w' (a & b & La & Lb & Adj & S & E). exists (addp p (corner_off a)), (addp p (corner_off b)).
+      split; [now apply corner_in_lattice|]. split; [now apply corner_in_lattice|]. split; [now apply adjacent_step|].
+      split; [exact S | exact E]. }
+    cbn [tri_vertices In] in Hw. destruct Hw as [<- | [<- | [<- | []]]]; now apply G.
+  Qed.
+
+  Hypothesis inc_nonneg : 0 <= wx (linc L) /\ 0 <= wy (linc L) /\ 0 <= wz (linc L).
+
+  Lemma lpoint_in_box q : in_lattice (lnx L) (lny L) (lnz L) q ->
+    in_box3 (mkBox3 (lpoint L (0, 0, 0)%Z) (lpoint L (Z.of_nat (lnx L), Z.of_nat (lny L), Z.of_nat (lnz L)))) (lpoint L q).
+  Proof.
+    destruct q as [[x y] z]. intros (Hx & Hy & Hz). destruct inc_nonneg as (Ix & Iy & Iz).
+    unfold in_box3, lpoint. cbn [b3min b3max wx wy wz].
+    destruct Hx as [X1 X2], Hy as [Y1 Y2], Hz as [Z1 Z2]. apply IZR_le in X1, X2, Y1, Y2, Z1, Z2.
+    repeat split; nra.
+  Qed.
+
+  (* the length of a lattice edge is one of the three cell sizes *)
+  Lemma lattice_step_dist q q' : lattice_step q q' ->
+    dist3 (lpoint L q) (lpoint L q') = wx (linc L) \/ dist3 (lpoint L q) (lpoint L q') = wy (linc L) \/
+    dist3 (lpoint L q) (lpoint L q') = wz (linc L).
+  Proof.
+    destruct q as [[x y] z], q' as [[x' y'] z']. unfold lattice_step. intros H. destruct inc_nonneg as (Ix & Iy & Iz).
+    assert (C : ((x' = x + 1 /\ y' = y /\ z' = z) \/ (x' = x - 1 /\ y' = y /\ z' = z) \/ (x' = x /\ y' = y + 1 /\ z' = z) \/
+                (x' = x /\ y' = y - 1 /\ z' = z) \/ (x' = x /\ y' = y /\ z' = z + 1) \/ (x' = x /\ y' = y /\ z' = z - 1))%Z) by lia.
+    assert (S1 : forall d, 0 <= d -> sqrt (d * d + 0 * 0 + 0 * 0) = d) by (intros d Hd; replace (d * d + 0 * 0 + 0 * 0) with (d * d) by ring; now apply sqrt_square).
+    assert (S2 : forall d, 0 <= d -> sqrt (0 * 0 + d * d + 0 * 0) = d) by (intros d Hd; replace (0 * 0 + d * d + 0 * 0) with (d * d) by ring; now apply sqrt_square).
+    assert (S3 : forall d, 0 <= d -> sqrt (0 * 0 + 0 * 0 + d * d) = d) by (intros d Hd; replace (0 * 0 + 0 * 0 + d * d) with (d * d) by ring; now apply sqrt_square).
+    unfold dist3, len3, NormR.sub3, lpoint. cbn [wx wy wz].
+    destruct C as [(-> & -> & ->)|[(-> & -> & ->)|[(-> & -> & ->)|[(-> & -> & ->)|[(-> & -> & ->)|(-> & -> & ->)]]]]];
+      rewrite ?plus_IZR, ?minus_IZR.
+    - left. rewrite <- (S1 _ Ix) at 2. f_equal. ring.
+    - left. rewrite <- (S1 _ Ix) at 2. f_equal. ring.
+    - right; left. rewrite <- (S2 _ Iy) at 2. f_equal. ring.
+    - right; left. rewrite <- (S2 _ Iy) at 2. f_equal. ring.
+    - right; right. rewrite <- (S3 _ Iz) at 2. f_equal. ring.
+    - right; right. rewrite <- (S3 _ Iz) at 2. f_equal. ring.
+  Qed.
+  Lemma lattice_step_dist_le q q' : lattice_step q q' -> dist3 (lpoint L q) (lpoint L q') <= @v3maxcomp ROps (linc L).
+  Proof.
+    intros H. destruct (maxcomp_ge (linc L)) as (A & B & C). destruct (lattice_step_dist q q' H) as [E|[E|E]]; rewrite E; assumption.
+  Qed.
+
+  (* mesh_in_sample_box: every vertex lies in the sampled box [lattice point 0, lattice point (nx,ny,nz)] *)
+  Theorem uniform_mesh_in_sample_box t w : In t (@marching_cubes ROps L f) -> In w (tri_vertices t) ->
+    in_box3 (mkBox3 (lpoint L (0, 0, 0)%Z) (lpoint L (Z.of_nat (lnx L), Z.of_nat (lny L), Z.of_nat (lnz L)))) w.
+  Proof.
+    intros Ht Hw. destruct (uniform_vertices t w Ht Hw) as (q & q' & Hq & Hq' & _ & S & ->).
+    destruct (interp_on_edge (lpoint L q) (lpoint L q') _ _ S) as (T & _ & -> & _).
+    pose proof (lpoint_in_box q Hq) as (A1 & A2 & A3). pose proof (lpoint_in_box q' Hq') as (B1 & B2 & B3).
+    set (t0 := interp_t (f (lpoint L q)) (f (lpoint L q')) 0) in *.
+    unfold in_box3, lerp3, lerp in *. cbn [b3min b3max wx wy wz] in *. repeat split; nra.
+  Qed.
+
+  (* vertices of a 1-Lipschitz field: |f w| <= largest cell size, and a zero of f within that distance *)
+  Theorem uniform_mesh_accuracy t w : lip3 f -> In t (@marching_cubes ROps L f) -> In w (tri_vertices t) ->
+    Rabs (f w) <= @v3maxcomp ROps (linc L) /\ exists z, f z = 0 /\ dist3 w z <= @v3maxcomp ROps (linc L).
+  Proof.
+    intros Lf Ht Hw. destruct (uniform_vertices t w Ht Hw) as (q & q' & _ & _ & St & S & ->).
+    pose proof (lattice_step_dist_le q q' St) as D. split.
+    - eapply Rle_trans; [apply (interp_lip_bound f _ _ Lf S) | exact D].
+    - destruct (vertex_near_surface_lip f _ _ Lf S) as (z & Z0 & Zd). exists z. split; [exact Z0 | lra].
+  Qed.
+End MeshUniform.
+
+(* two points of the half-resolution lattice one cell (two lattice units) apart along one axis *)
+Definition cell_step (q q' : pt) : Prop :=
+  exists d : pt, lattice_step (0, 0, 0)%Z d /\ q' = addp q (scalep 2 d).
+
+Section MeshOctree.
+  Variable origin : RV3.
+  Variable res : R.
+  Variable f : RV3 -> R.
+
+  Theorem octree_vertices m v t w : In t (@oct_uniform ROps origin res (fv3 origin res f) m v) -> In w (tri_vertices t) ->
+    exists q q', in_cube m v q /\ in_cube m v q' /\ cell_step q q' /\
+                 crossing_of f (@oct_point ROps origin res q) (@oct_point ROps origin res q') w.
+  Proof.
+    unfold oct_uniform. intros Ht Hw. apply in_flat_map in Ht as (u & Hu & Ht). apply oct_leaves_spec in Hu.
+    unfold oct_cell in Ht. pose proof (mc_vertices _ _ t Ht) as V. destruct t as [[w0 w1] w2]. destruct V as (V0 & V1 & V2).
+    assert (G : forall w', is_crossing_point (fun c => @oct_point ROps origin res (oct_corner u c)) (fun c => fv3 origin res f (oct_corner u c)) w' ->
+              exists q q', in_cube m v q /\ in_cube m v q' /\ cell_step q q' /\
+                           crossing_of f (@oct_point ROps origin res q) (@oct_point ROps origin res q') w').
+    { intros w' (a & b & La & Lb & Adj & S & E). exists (oct_corner u a), (oct_corner u b).
+      split; [now apply cell_corner_in_cube|]. split; [now apply cell_corner_in_cube|]. split; [|split; [exact S | exact E]].
+      destruct u as [[ux uy] uz].
+      destruct (corner_off a) as [[ax ay] az] eqn:Ea. destruct (corner_off b) as [[bx by_] bz] eqn:Eb.
+      exists (bx - ax, by_ - ay, bz - az)%Z.
+      unfold adjacent in Adj. rewrite Ea, Eb in Adj. unfold oct_corner. rewrite Ea, Eb. unfold scalep, addp, lattice_step.
+      split; [lia|]. f_equal; [f_equal|]; lia. }
+    cbn [tri_vertices In] in Hw. destruct Hw as [<- | [<- | [<- | []]]]; now apply G.
+  Qed.
+End MeshOctree.
